@@ -82,6 +82,7 @@ type inprocResult struct {
 	GlobErr   string
 	Final     []discovery.Entry
 	FindErr   string
+	Uncovered int // HEAD entries of changes (no rule error) without a glob entry at the same path and rule position
 }
 
 // runInproc runs the three real functions in dir.
@@ -164,10 +165,13 @@ func (b *bodyTable) id(body []byte) int {
 
 // changesCaseCoq serialises the transcript (inputs) and the real change list (observed) as a Run.C03.changes_case.
 func changesCaseCoq(res *inprocResult) (string, bool) {
+	return changesCaseCoqBT(res, &bodyTable{})
+}
+
+func changesCaseCoqBT(res *inprocResult, bt *bodyTable) (string, bool) {
 	t := res.T
 	var logOut []byte
 	var types, bodies, blames []string
-	bt := &bodyTable{}
 	okLog := false
 	for _, c := range t.Calls {
 		switch {
@@ -224,8 +228,77 @@ func sortStrings(s []string) {
 
 // findCaseCoq serialises glob entries + per change parsed bodies (inputs) and the real Find result (observed).
 func findCaseCoq(res *inprocResult) (string, bool, int) {
-	if res.ChangeErr != "" || res.GlobErr != "" || res.FindErr != "" {
+	glob, cs, obs, ok, broken := findCaseParts(res, nil)
+	if !ok {
 		return "", false, 0
+	}
+	return "{| fc_glob := " + glob + "; fc_changes := " + cs + "; fc_observed := " + obs + " |}", true, broken
+}
+
+// findCaseParts: the three components of a find case; hook (optional) sees every abstracted entry with the uid it was given.
+func findCaseParts(res *inprocResult, hook func(uid int, e discovery.Entry)) (globCoq, changesCoq, obsCoq string, ok bool, broken int) {
+	res.Uncovered = 0
+	if res.ChangeErr != "" || res.GlobErr != "" || res.FindErr != "" {
+		return "", "", "", false, 0
+	}
+	t := &cidTable{}
+	uid := 0
+	abs := func(es []discovery.Entry) []absEntry {
+		out := make([]absEntry, 0, len(es))
+		for _, e := range es {
+			uid++
+			out = append(out, abstractEntry(e, uid, t))
+			if hook != nil {
+				hook(uid, e)
+			}
+		}
+		return out
+	}
+	glob := abs(res.Glob)
+	var cs []string
+	for _, ch := range res.Changes {
+		p := parser.NewParser(true, parser.PrometheusSchema, model.UTF8Validation)
+		eb, _ := discovery.VerifReadRules(ch.Path.Before.EffectivePath(), ch.Path.Before.Name, bytes.NewReader(ch.Body.Before), p, nil)
+		ea, _ := discovery.VerifReadRules(ch.Path.After.EffectivePath(), ch.Path.After.Name, bytes.NewReader(ch.Body.After), p, nil)
+		// hypothesis [covered] of C20_removed_reaches_check: every HEAD entry of a change without a rule error has a glob entry
+		// with the same path and the same rule position (model: is_same)
+		for _, a := range ea {
+			if a.Rule.Error.Err != nil {
+				continue
+			}
+			found := false
+			for _, g := range res.Glob {
+				if g.Path.Name == a.Path.Name && g.Rule.Error.Err == nil && g.Rule.Type() == a.Rule.Type() &&
+					g.Rule.Lines.First == a.Rule.Lines.First && g.Rule.Lines.Last == a.Rule.Lines.Last {
+					found = true
+					break
+				}
+			}
+			if !found {
+				res.Uncovered++
+			}
+		}
+		cs = append(cs, "{| ci_before := "+absEntriesCoq(abs(eb))+"; ci_after := "+absEntriesCoq(abs(ea))+"; ci_mod := "+coqIntListZ(ch.Body.ModifiedLines)+
+			"; ci_after_lines := "+coqN(len(pgit.CountLines(ch.Body.After)))+" |}")
+	}
+	var obs []string
+	for _, e := range res.Final {
+		obs = append(obs, "("+strings.Join([]string{coqStr(e.Path.Name), kindOf(e), coqStr(e.Rule.Name()), coqZ(int64(e.Rule.Lines.First)),
+			coqZ(int64(e.Rule.Lines.Last)), stateNames[e.State], coqIntListZ(e.ModifiedLines)}, ", ")+")")
+	}
+	return absEntriesCoq(glob), coqList(cs), coqList(obs), true, t.broken
+}
+
+// historyCaseCoq: the whole pipeline on one history (Run.C03.history_case): the git transcript, the parser table
+// (body id, path name) -> readRules for every body the real change list carries, the glob list, and the real final list.
+func historyCaseCoq(res *inprocResult) (string, bool) {
+	if res.ChangeErr != "" || res.GlobErr != "" || res.FindErr != "" {
+		return "", false
+	}
+	bt := &bodyTable{}
+	cc, ok := changesCaseCoqBT(res, bt)
+	if !ok {
+		return "", false
 	}
 	t := &cidTable{}
 	uid := 0
@@ -238,18 +311,18 @@ func findCaseCoq(res *inprocResult) (string, bool, int) {
 		return out
 	}
 	glob := abs(res.Glob)
-	var cs []string
+	var table []string
 	for _, ch := range res.Changes {
 		p := parser.NewParser(true, parser.PrometheusSchema, model.UTF8Validation)
 		eb, _ := discovery.VerifReadRules(ch.Path.Before.EffectivePath(), ch.Path.Before.Name, bytes.NewReader(ch.Body.Before), p, nil)
 		ea, _ := discovery.VerifReadRules(ch.Path.After.EffectivePath(), ch.Path.After.Name, bytes.NewReader(ch.Body.After), p, nil)
-		cs = append(cs, "{| ci_before := "+absEntriesCoq(abs(eb))+"; ci_after := "+absEntriesCoq(abs(ea))+"; ci_mod := "+coqIntListZ(ch.Body.ModifiedLines)+
-			"; ci_after_lines := "+coqN(len(pgit.CountLines(ch.Body.After)))+" |}")
+		table = append(table, "("+coqN(bt.id(ch.Body.Before))+", "+coqStr(ch.Path.Before.Name)+", "+absEntriesCoq(abs(eb))+")")
+		table = append(table, "("+coqN(bt.id(ch.Body.After))+", "+coqStr(ch.Path.After.Name)+", "+absEntriesCoq(abs(ea))+")")
 	}
 	var obs []string
 	for _, e := range res.Final {
 		obs = append(obs, "("+strings.Join([]string{coqStr(e.Path.Name), kindOf(e), coqStr(e.Rule.Name()), coqZ(int64(e.Rule.Lines.First)),
 			coqZ(int64(e.Rule.Lines.Last)), stateNames[e.State], coqIntListZ(e.ModifiedLines)}, ", ")+")")
 	}
-	return "{| fc_glob := " + absEntriesCoq(glob) + "; fc_changes := " + coqList(cs) + "; fc_observed := " + coqList(obs) + " |}", true, t.broken
+	return "{| hc_changes := " + cc + "; hc_parse := " + coqList(table) + "; hc_glob := " + absEntriesCoq(glob) + "; hc_observed := " + coqList(obs) + " |}", true
 }
